@@ -109,8 +109,8 @@ def gen_world(rng: random.Random):
     if r < 0.5:
         w["freqlim"] = None
     else:
-        a = rng.uniform(0.0, 0.2) * fs / 2
-        b = rng.uniform(0.5, 1.0) * fs / 2
+        a = rng.uniform(-0.1, 0.2) * fs / 2  # the limits are the user's choice: they may start below 0 Hz ...
+        b = rng.uniform(0.5, 1.1) * fs / 2  # ... and end beyond the Nyquist frequency
         w["freqlim"] = [round(a, 4), round(b, 4)]
     return w
 
@@ -401,6 +401,15 @@ class Driver:
             px = rng.choice([bb.x0 - rng.uniform(1, 40), bb.x1 + rng.uniform(1, 40), rng.uniform(bb.x0, bb.x1)])
             py = rng.choice([bb.y0 - rng.uniform(1, 30), bb.y1 + rng.uniform(1, 30)])
             return {"px": round(float(px), 3), "py": round(float(py), 3)}
+        lo_d, hi_d = (float(m.freq[0]), float(m.freq[-1])) if m.variant == "FDD" else (
+            (float(np.nanmin(m.Fn)), float(np.nanmax(m.Fn))) if np.isfinite(m.Fn).any() else (0.0, 0.0))
+        beyond = [(min(x0, x1), lo_d)] if min(x0, x1) < lo_d else []
+        beyond += [(hi_d, max(x0, x1))] if max(x0, x1) > hi_d else []
+        if beyond and rng.random() < 0.12:
+            # the view (after a zoom / pan, or through freqlim) extends beyond the table: click out there, at a
+            # frequency below the first or above the last pole / frequency line (possibly negative)
+            a_, b_ = rng.choice(beyond)
+            return {"x": float(rng.uniform(a_, b_)), "y": float(rng.uniform(y0, y1))}
         if rng.random() < 0.06:
             # a coordinate that is exactly a special value: a table frequency / frequency line, 0 Hz, an axis limit
             if m.variant == "FDD":
@@ -507,7 +516,7 @@ class Driver:
             return {"ev": "resize", "w": round(rng.uniform(6, 14), 2), "h": round(rng.uniform(3.5, 8), 2)}
         if r < 0.65:
             # toolbar zoom / pan: a new view; later clicks map through the new transform
-            a, b = sorted([round(rng.uniform(-0.2, 0.5), 3), round(rng.uniform(0.5, 1.2), 3)])
+            a, b = sorted([round(rng.uniform(-0.35, 0.5), 3), round(rng.uniform(0.5, 1.35), 3)])
             c, d = sorted([round(rng.uniform(-0.3, 0.5), 3), round(rng.uniform(0.5, 1.3), 3)])
             return {"ev": "zoom", "fx": [a, b], "fy": [c, d]}
         e = {"ev": rng.choice(["motion", "release", "scroll"]), "mods": ["shift"] if self.phys_shift else []}
